@@ -8,9 +8,10 @@ from typing import Dict, Optional
 
 from .. import flow
 from ..cfg import cfg_of
-from ..model import AnchorError, Func, UnknownIdiom, short, walk_no_nested
+from ..model import AnchorError, Func, UnknownIdiom, attr_chain, short, walk_no_nested
 from .c09_helpers import (ASGI_REQ, UNK, WSGI_REQ, ReachingDefs, SiteEscape, branch_facts, ceval, concat_parts,
                           effective_members, fact_value, inline_stmt_helpers, node_defs, node_of, polar_fact, raises_on, resolves_to, split_key, table_of)
+from .c09_helpers import TABLE_KINDS
 from .common import implied, walk_self
 
 PQS = 'falcon.util.uri.parse_query_string'
@@ -639,8 +640,12 @@ def r2_total(run):
 def _none_fact(test, truth, var) -> Optional[bool]:
     """True: var is known not-None; False: known None; None: unknown.
     Plain truthiness of var is reported as 'truthy' (not the same thing)."""
-    if isinstance(test, ast.Compare) and len(test.ops) == 1 and _is_name(test.left, var) \
-            and isinstance(test.comparators[0], ast.Constant) and test.comparators[0].value is None:
+    def _none(x):
+        return isinstance(x, ast.Constant) and x.value is None
+
+    # `var is None` and the same comparison written the other way round (`None is var`)
+    if isinstance(test, ast.Compare) and len(test.ops) == 1 and ((_is_name(test.left, var) and _none(test.comparators[0]))
+                                                                  or (_none(test.left) and _is_name(test.comparators[0], var))):
         if isinstance(test.ops[0], (ast.IsNot, ast.NotEq)):
             return truth
         if isinstance(test.ops[0], (ast.Is, ast.Eq)):
@@ -666,6 +671,69 @@ def _raise_class(p, f, r: ast.Raise) -> Optional[str]:
         return None
     e = r.exc.func if isinstance(r.exc, ast.Call) else r.exc
     return p.resolve_expr(f.module, e, f)
+
+
+# result types of a getter whose every instance is truthy, so that `if res:` / `if not res:` on an Optional[T] result
+# decides exactly `res is not None` / `res is None` (one line of reason each)
+_ALWAYS_TRUTHY_TYPES = {
+    'datetime.datetime': 'datetime defines neither __bool__ nor __len__ (midnight is truthy since Python 3.5)',
+    'datetime.date': 'date defines neither __bool__ nor __len__',
+    'uuid.UUID': 'UUID defines neither __bool__ nor __len__ (the nil UUID is truthy)',
+}
+# result types with a falsy instance a PRESENT parameter can produce
+_FALSY_WITNESS = {
+    'builtins.str': "'' (`?x=` under the default keep_blank_qs_values=True)",
+    'builtins.int': '0 (`?x=0`)',
+    'builtins.float': '0.0 (`?x=0`)',
+    'builtins.bool': 'False (`?x=false`)',
+    'builtins.list': '[] (an empty list)', 'typing.List': '[] (an empty list)',
+    'builtins.dict': '{} (`?x={}`)', 'typing.Dict': '{} (`?x={}`)',
+    'typing.Any': '0 / false / null / "" / [] / {} (`?x=0`)',
+}
+_UNION_HEADS = ('typing.Optional', 'typing.Union')
+
+
+_MAPPING_MUTATORS = ('update', 'setdefault', 'pop', 'popitem', 'clear', '__setitem__', '__delitem__', '__ior__')
+
+
+def _present_result_falsy(p, g: Func) -> Optional[str]:
+    """Can the value the getter `g` returns for a PRESENT parameter be falsy?  Read from the declared result type of `g`
+    (`Optional[T]`: `None` is the absent case, T the present one): a witness text when some member of T has a falsy
+    instance, None when every member is always truthy; a type outside the two tables is not judged (UnknownIdiom)."""
+    ann = g.node.returns
+    if ann is None:
+        raise UnknownIdiom('%s: no declared result type (needed to judge a truthiness test of its result)' % g.qual)
+
+    def leaves(a):
+        if isinstance(a, ast.Constant):
+            if a.value is None:
+                return []
+            if isinstance(a.value, str):
+                try:
+                    return leaves(ast.parse(a.value, mode='eval').body)
+                except SyntaxError:
+                    raise UnknownIdiom('%s: result type %r not parseable' % (g.qual, a.value))
+            raise UnknownIdiom('%s: result type %s not understood' % (g.qual, short(a)))
+        if isinstance(a, ast.BinOp) and isinstance(a.op, ast.BitOr):
+            return leaves(a.left) + leaves(a.right)
+        if isinstance(a, ast.Subscript):
+            if p.resolve_expr(g.module, a.value, g) in _UNION_HEADS:
+                return [x for e in (a.slice.elts if isinstance(a.slice, ast.Tuple) else [a.slice]) for x in leaves(e)]
+            return [a.value]        # List[str], Dict[str, Any]: the container decides truthiness
+        if isinstance(a, (ast.Name, ast.Attribute)):
+            return [a]
+        raise UnknownIdiom('%s: result type %s not understood' % (g.qual, short(a)))
+
+    wit = None
+    for leaf in leaves(ann):
+        q = p.resolve_expr(g.module, leaf, g)
+        if q in _ALWAYS_TRUTHY_TYPES:
+            continue
+        if q in _FALSY_WITNESS:
+            wit = wit or _FALSY_WITNESS[q]
+            continue
+        raise UnknownIdiom('%s: truthiness of the result type %s is not tabled' % (g.qual, short(leaf)))
+    return wit
 
 
 def _last_occurrence_split(run, f: Func, g: Func, tag: str) -> bool:
@@ -713,7 +781,10 @@ def _last_occurrence_split(run, f: Func, g: Func, tag: str) -> bool:
         islist = implied(node.test, True, lambda e: e is call)
         handled = False
         for s in node.body:
-            if isinstance(s, ast.Assign) and len(s.targets) == 1 and _is_name(s.targets[0], var.id):
+            # a chained assignment (`v = other = [v]`) binds `v` to the same value; what the other targets are is judged by
+            # the clause that owns them (a store into the parameter mapping: _getter (f))
+            if isinstance(s, ast.Assign) and any(_is_name(t, var.id) for t in s.targets) \
+                    and all(isinstance(t, (ast.Name, ast.Subscript, ast.Attribute)) for t in s.targets):
                 v = s.value
                 if islist is True and isinstance(v, ast.Subscript) and _is_name(v.value, var.id) and not isinstance(v.slice, ast.Slice):
                     handled = True
@@ -986,14 +1057,36 @@ def _getter(run, p, E, f: Func, cls):
             run.check(_is_name(given.get('required'), 'required') and 'default' not in given and _is_name(given.get(cps[0]), name),
                       '%s: name and `required` are passed on to %s, `default` is not' % (tag, c.func.attr), f, c,
                       runtime_witness='required=True is ignored (or the default is converted) by the typed getter')
+        # the delegate reports "absent and not required" as None.  `res is None` says exactly that; plain falsiness of
+        # `res` says it only when the delegate's result for a PRESENT parameter is always truthy (a datetime, a UUID): for
+        # get_param (a str, '' for `?x=`), the int / float / bool / json getters a present falsy value would be misread
+        # as absent -- the default is returned (even under required=True) instead of the value / HTTPInvalidParam
+        def falsy_witness() -> Optional[str]:
+            wit = None
+            for c in deleg:
+                wit = wit or _present_result_falsy(p, effective_members(p, cls.qual)[c.func.attr].func)
+            return wit
+
         for n in dret:
             absent = None
+            by_truth = None
             for test, truth in branch_facts(cfg, n.id):
                 r = _none_fact(test, truth, res)
                 if r is not None:
                     absent = (r is False)
                 elif implied(test, truth, lambda e: _is_name(e, res)) is False:
-                    absent = True  # falsy result: None or (never) an empty conversion
+                    by_truth = test
+            if absent is None and by_truth is not None:
+                wit = falsy_witness()
+                run.check(wit is None, '%s: the missing-parameter arm is taken on absence (`%s is None`), never on the truthiness of a value '
+                          'that can be falsy although the parameter is present' % (tag, res), f, by_truth, where='%s:%s' % (f.file, n.lineno),
+                          witness=['`%s` is the result of %s, which for a present parameter can be %s' % (res, deleg[0].func.attr, wit)] if wit else None,
+                          runtime_witness='a present parameter whose value is falsy (?%s=) gets the default back -- even with required=True -- '
+                                          'instead of its value / HTTPInvalidParam' % name)
+                if wit is None:
+                    absent = True   # falsy result of an always-truthy type: exactly None
+                else:
+                    continue
             run.check(absent is True, '%s: default is returned only when the delegate reported the parameter absent' % tag, f, n.ast,
                       where='%s:%s' % (f.file, n.lineno))
         for n in success:
@@ -1005,6 +1098,41 @@ def _getter(run, p, E, f: Func, cls):
                 elif implied(test, truth, lambda e: _is_name(e, res)) is True:
                     known = True
             run.check(known is True, '%s: a value is returned only when the delegate found the parameter' % tag, f, n.ast, where='%s:%s' % (f.file, n.lineno))
+
+    # ---- (f) a getter only READS the request's parameter mapping: the one mapping it may write is the caller's `store`
+    # (`items = params[name] = [items]`: after get_param_as_list('x') on `?x=1`, req.params['x'] is ['1'] instead of '1' and
+    # the caller holds the request's own storage)
+    def is_params(e) -> bool:
+        return (table_of(f, e) or ('', ''))[0] == 'params'
+
+    writes = []
+    for n in walk_no_nested(f.node):
+        tgts = []
+        if isinstance(n, ast.Assign):
+            tgts = n.targets
+        elif isinstance(n, (ast.AugAssign, ast.AnnAssign)):
+            tgts = [n.target] if not (isinstance(n, ast.AnnAssign) and n.value is None) else []
+        elif isinstance(n, ast.Delete):
+            tgts = n.targets
+        elif isinstance(n, ast.NamedExpr):
+            tgts = [n.target]
+        elif isinstance(n, (ast.For, ast.AsyncFor)):
+            tgts = [n.target]
+        elif isinstance(n, ast.Call) and isinstance(n.func, ast.Attribute) and n.func.attr in _MAPPING_MUTATORS and is_params(n.func.value):
+            writes.append(n)
+        for t in tgts:
+            for x in walk_self(t):
+                if isinstance(x, ast.Subscript) and isinstance(x.ctx, (ast.Store, ast.Del)) and is_params(x.value):
+                    writes.append(n)
+                elif isinstance(x, ast.Attribute) and isinstance(x.ctx, (ast.Store, ast.Del)) and attr_chain(x) in TABLE_KINDS \
+                        and TABLE_KINDS[attr_chain(x)] == 'params':
+                    writes.append(n)
+    if not writes:
+        run.ok('%s: the request\'s parameter mapping is only read (the one mapping a getter writes is the caller\'s `store`)' % tag, f.loc(), f.qual)
+    for n in {id(n): n for n in writes}.values():
+        run.fail('%s: a getter never writes the request\'s parameter mapping (only the caller-supplied `store`)' % tag, f, n, where=f.loc(n),
+                 runtime_witness='after the first call req.params / get_param() report another value for the same request, and the caller '
+                                 'holds (and may mutate) the request\'s own storage')
 
     # ---- (e) bounds
     for bound, reject_op, accept_op, word in (('min_value', ast.Lt, ast.GtE, 'below'), ('max_value', ast.Gt, ast.LtE, 'above')):
@@ -2576,6 +2704,312 @@ def r16_presence_by_key(run):
                       runtime_witness="?flag (keep_blank_qs_values): params == {'flag': ''} and get_param('flag') == '' but has_param('flag') is False")
 
 
+# ---------------------------------------------------------------------------
+# R17 a stored list is never empty (or every [-1] on a stored list is guarded)
+# ---------------------------------------------------------------------------
+# abstract values: a frozenset of alternatives ('list', n) [a list of at least n elements] / ('scalar',) [no list: a str]
+# / ('entry',) [what the mapping holds for a key under the invariant: a str or a list of >= 1] / ('unknown',)
+_SCALAR = frozenset([('scalar',)])
+_ENTRY = frozenset([('entry',)])
+_UNKNOWN = frozenset([('unknown',)])
+_LIST_GROW = ('append', 'insert')
+
+
+def _lst(n):
+    return frozenset([('list', n)])
+
+
+def _minlen_walk(p, f: Func, table: str):
+    """Per-path evaluation of `f` over the minimum-length domain (split >= 1; unfiltered comprehension preserves;
+    filtered comprehension >= 0; literal = count; insert / append + 1; extend + min of the argument), loops entered once
+    under the invariant "a stored list has >= 1 element".  Yields (store statement, abstract value) for every
+    `<table>[...] = value`."""
+    out = []
+
+    def ev(e, env):
+        if isinstance(e, ast.Name):
+            return env.get(e.id, _UNKNOWN)
+        if isinstance(e, ast.Constant):
+            return _SCALAR if isinstance(e.value, (str, bytes, int, float, bool, type(None))) else _UNKNOWN
+        if isinstance(e, ast.JoinedStr):
+            return _SCALAR
+        if isinstance(e, ast.List):
+            return _lst(sum(1 for x in e.elts if not isinstance(x, ast.Starred)))
+        if isinstance(e, ast.ListComp):
+            if len(e.generators) != 1:
+                return _UNKNOWN
+            g = e.generators[0]
+            if g.ifs:
+                return _lst(0)
+            src = ev(g.iter, env)
+            if all(a[0] == 'list' for a in src):
+                return _lst(min(a[1] for a in src))
+            return _lst(0)
+        if isinstance(e, ast.IfExp):
+            return ev(e.body, env) | ev(e.orelse, env)
+        if isinstance(e, ast.Subscript) and _is_name(e.value, table) and isinstance(e.ctx, ast.Load):
+            return _ENTRY
+        if isinstance(e, ast.BinOp) and isinstance(e.op, ast.Add):
+            l, r = ev(e.left, env), ev(e.right, env)
+            if all(a[0] == 'list' for a in l | r):
+                return _lst(min(a[1] for a in l) + min(a[1] for a in r))
+            if l == _SCALAR and r == _SCALAR:
+                return _SCALAR
+            return _UNKNOWN
+        if isinstance(e, ast.Call):
+            if isinstance(e.func, ast.Attribute) and e.func.attr in ('split', 'rsplit') and not isinstance(e.func.value, ast.Constant):
+                return _lst(1)       # str.split(sep) has at least one element
+            if isinstance(e.func, ast.Attribute) and e.func.attr in ('strip', 'lstrip', 'rstrip', 'lower', 'upper', 'replace', 'decode', 'encode', 'join'):
+                return _SCALAR
+            if _is_name(e.func, 'list') and len(e.args) == 1:
+                a = ev(e.args[0], env)
+                return a if all(x[0] == 'list' for x in a) else _lst(0)
+            h = p.resolve_callable(f, e.func)
+            if isinstance(h, Func):
+                if h.qual == DECODE:
+                    return _SCALAR
+                r = h.node.returns
+                if r is not None and p.resolve_expr(h.module, r, h) == 'builtins.str':
+                    return _SCALAR
+            if h in ('builtins.str', 'builtins.len', 'builtins.int'):
+                return _SCALAR
+            return _UNKNOWN
+        return _UNKNOWN
+
+    def bind(t, v, env, stmt):
+        if isinstance(t, ast.Name):
+            env[t.id] = v
+        elif isinstance(t, (ast.Tuple, ast.List)):
+            for x in t.elts:
+                # `k, _, v = field.partition('=')`: three strings
+                bind(x.value if isinstance(x, ast.Starred) else x, _SCALAR if _method_call(stmt.value, 'partition') or _method_call(stmt.value, 'rpartition')
+                     else _UNKNOWN, env, stmt)
+        elif isinstance(t, ast.Subscript) and _is_name(t.value, table):
+            out.append((stmt, v))
+        elif isinstance(t, ast.Subscript) and isinstance(t.value, ast.Name) and any(a[0] in ('list', 'entry') for a in env.get(t.value.id, _UNKNOWN)):
+            pass        # element replacement: the length stays
+        elif isinstance(t, ast.Subscript) and isinstance(t.value, ast.Name) and isinstance(t.slice, ast.Slice):
+            raise UnknownIdiom('%s: slice assignment %s' % (f.qual, short(stmt, 60)))
+
+    def grow(recv, env, stmt, by):
+        cur = env.get(recv, _UNKNOWN)
+        new = set()
+        for a in cur:
+            if a[0] == 'list':
+                new.add(('list', a[1] + by))
+            else:
+                new.add(a)       # a stored entry / unknown only grows: the invariant is kept
+        env[recv] = frozenset(new)
+
+    def refine(test, truth, env):
+        """a branch taken on the truthiness / positive length of a list local: the list has at least one element there"""
+        env = dict(env)
+        for nm, alts in list(env.items()):
+            if not any(a[0] == 'list' and a[1] == 0 for a in alts):
+                continue
+
+            def nonempty(e, nm=nm):
+                if _is_name(e, nm):
+                    return True
+                if isinstance(e, ast.Call) and _is_name(e.func, 'len') and len(e.args) == 1 and _is_name(e.args[0], nm):
+                    return True
+                if isinstance(e, ast.Compare) and len(e.ops) == 1 and isinstance(e.left, ast.Call) and nonempty(e.left) \
+                        and isinstance(e.comparators[0], ast.Constant):
+                    op, c = e.ops[0], e.comparators[0].value
+                    return (isinstance(op, ast.Gt) and c == 0) or (isinstance(op, ast.GtE) and c == 1) or (isinstance(op, ast.NotEq) and c == 0)
+                return False
+
+            for a in [x for x in walk_self(test) if nonempty(x)]:
+                if implied(test, truth, lambda e, a=a: e is a) is True:
+                    env[nm] = frozenset(('list', max(x[1], 1)) if x[0] == 'list' else x for x in alts)
+                    break
+        return env
+
+    def run_block(stmts, env):
+        """-> list of environments at the normal end of the block"""
+        envs = [env]
+        for st in stmts:
+            nxt = []
+            for en in envs:
+                nxt.extend(step(st, en))
+            envs = nxt
+        return envs
+
+    def step(st, env):
+        env = dict(env)
+        if isinstance(st, ast.Assign):
+            v = ev(st.value, env)
+            for t in st.targets:
+                bind(t, v, env, st)
+            return [env]
+        if isinstance(st, ast.AnnAssign):
+            if st.value is not None:
+                bind(st.target, ev(st.value, env), env, st)
+            return [env]
+        if isinstance(st, ast.AugAssign):
+            if isinstance(st.target, ast.Name) and isinstance(st.op, ast.Add):
+                add = ev(st.value, env)
+                grow(st.target.id, env, st, min([a[1] for a in add if a[0] == 'list'] or [0]) if all(a[0] == 'list' for a in add) else 0)
+            elif isinstance(st.target, ast.Subscript) and _is_name(st.target.value, table):
+                raise UnknownIdiom('%s: in-place update of a stored value %s' % (f.qual, short(st, 60)))
+            return [env]
+        if isinstance(st, ast.Expr) and isinstance(st.value, ast.Call) and isinstance(st.value.func, ast.Attribute):
+            c = st.value
+            recv = c.func.value
+            on_table_entry = isinstance(recv, ast.Subscript) and _is_name(recv.value, table)
+            tracked = isinstance(recv, ast.Name) and any(a[0] in ('list', 'entry') for a in env.get(recv.id, _UNKNOWN))
+            if _is_name(recv, table) and c.func.attr in _MAPPING_MUTATORS:
+                raise UnknownIdiom('%s: the mapping is changed through %s' % (f.qual, short(c, 60)))
+            if tracked or on_table_entry:
+                if c.func.attr in _LIST_GROW:
+                    if tracked:
+                        grow(recv.id, env, st, 1)
+                elif c.func.attr == 'extend' and len(c.args) == 1:
+                    add = ev(c.args[0], env)
+                    if tracked:
+                        grow(recv.id, env, st, min(a[1] for a in add) if all(a[0] == 'list' for a in add) else 0)
+                elif c.func.attr in ('reverse', 'sort'):
+                    pass
+                elif c.func.attr in ('pop', 'remove', 'clear', '__delitem__'):
+                    raise UnknownIdiom('%s: a list that may be stored shrinks: %s' % (f.qual, short(c, 60)))
+            return [env]
+        if isinstance(st, ast.Delete):
+            for t in st.targets:
+                if isinstance(t, ast.Subscript) and isinstance(t.value, ast.Name) and not _is_name(t.value, table) \
+                        and any(a[0] in ('list', 'entry') for a in env.get(t.value.id, _UNKNOWN)):
+                    raise UnknownIdiom('%s: a list that may be stored shrinks: %s' % (f.qual, short(st, 60)))
+            return [env]
+        if isinstance(st, ast.If):
+            return run_block(st.body, refine(st.test, True, env)) + run_block(st.orelse, refine(st.test, False, env))
+        if isinstance(st, (ast.For, ast.AsyncFor)):
+            body_env = dict(env)
+            bind(st.target, _SCALAR if isinstance(st.target, ast.Name) else _UNKNOWN, body_env, st)
+            return [env] + run_block(st.body, body_env) + run_block(st.orelse, env)
+        if isinstance(st, ast.While):
+            return [env] + run_block(st.body, env)
+        if isinstance(st, (ast.With, ast.AsyncWith)):
+            return run_block(st.body, env)
+        if isinstance(st, ast.Try):
+            res = run_block(st.body + st.orelse, env)
+            for h in st.handlers:
+                res += run_block(h.body, env)
+            return [e2 for e in res for e2 in run_block(st.finalbody, e)] if st.finalbody else res
+        if isinstance(st, (ast.Continue, ast.Break, ast.Return, ast.Raise)):
+            return []
+        return [env]
+
+    env0 = {a: _SCALAR for a in f.params()}
+    run_block(f.node.body, env0)
+    return out
+
+
+def _last_index_sites(p):
+    """Every `<v>[-1]` in a parameter getter of the request class (or in a module-level helper it calls) -> (function,
+    subscript node, guarded by a non-emptiness test of <v>?)."""
+    mem = effective_members(p, WSGI_REQ)
+    funcs = []
+    for n, m in sorted(mem.items()):
+        if (n == 'get_param' or n.startswith('get_param_as_')) and m.func is not None and m.kind == 'method':
+            funcs.append(m.func)
+            for c in walk_no_nested(m.func.node):
+                if isinstance(c, ast.Call):
+                    h = p.resolve_callable(m.func, c.func)
+                    if isinstance(h, Func) and h.cls is None and h.module is m.func.module and h not in funcs:
+                        funcs.append(h)
+    sites = []
+    for g in funcs:
+        par = _parent_map(g.node)
+        for x in walk_no_nested(g.node):
+            if not (isinstance(x, ast.Subscript) and isinstance(x.ctx, ast.Load) and isinstance(x.value, ast.Name) and short(x.slice) == '-1'):
+                continue
+            var = x.value.id
+
+            def nonempty(e, var=var):
+                if _is_name(e, var):
+                    return True
+                if isinstance(e, ast.Call) and _is_name(e.func, 'len') and len(e.args) == 1 and _is_name(e.args[0], var):
+                    return True
+                if isinstance(e, ast.Compare) and len(e.ops) == 1 and nonempty(e.left) and not _is_name(e.left, var) \
+                        and isinstance(e.comparators[0], ast.Constant):
+                    op, c = e.ops[0], e.comparators[0].value
+                    return (isinstance(op, ast.Gt) and c == 0) or (isinstance(op, ast.GtE) and c == 1) or (isinstance(op, ast.NotEq) and c == 0)
+                return False
+
+            guarded = False
+            cur = x
+            while id(cur) in par and not guarded:
+                up = par[id(cur)]
+                if isinstance(up, (ast.If, ast.IfExp)):
+                    body = up.body if isinstance(up.body, list) else [up.body]
+                    orelse = up.orelse if isinstance(up.orelse, list) else [up.orelse]
+                    truth = True if any(cur is b for b in body) else False if any(cur is b for b in orelse) else None
+                    if truth is not None:
+                        # the comparison forms are atoms of their own; plain `v` / `len(v)` inside them must not be taken apart
+                        atoms = [a for a in walk_self(up.test) if nonempty(a)]
+                        for a in atoms:
+                            if implied(up.test, truth, lambda e, a=a: e is a) is True:
+                                guarded = True
+                cur = up
+            sites.append((g, x, guarded))
+    return sites
+
+
+def r17_stored_list_nonempty(run):
+    """A list stored in the parameter mapping by parse_query_string has at least one element -- OR every getter that takes
+    `[-1]` of a stored list does so under a non-emptiness guard.  Witness: auto_parse_qs_csv=True,
+    keep_blank_qs_values=False, `?a=,` -> {'a': []}; get_param('a') raises IndexError (a 500)."""
+    p = run.project
+    f = p.func(PQS)
+    run.use(f)
+    rets = [r for r in walk_no_nested(f.node) if isinstance(r, ast.Return) and isinstance(r.value, ast.Name)]
+    if len({r.value.id for r in rets}) != 1:
+        raise UnknownIdiom('%s: the returned mapping is not one local' % f.qual)
+    table = rets[0].value.id
+    stores = _minlen_walk(p, f, table)
+    if not stores:
+        raise AnchorError('%s: no store into the mapping `%s`' % (f.qual, table))
+    sites = None
+    par = _parent_map(f.node)
+    by_stmt = {}
+    for st, v in stores:
+        by_stmt.setdefault(id(st), (st, set()))[1].update(v)
+    for st, alts in by_stmt.values():
+        if ('unknown',) in alts:
+            raise UnknownIdiom('%s: what %s stores is neither a string nor a list of known minimum length' % (f.qual, short(st, 70)))
+        lens = [a[1] for a in alts if a[0] == 'list']
+        if not lens:
+            run.ok('a string (no list) is stored', f.loc(st), st)
+            continue
+        what = 'a list stored in the parameter mapping has at least one element (or every `[-1]` a getter takes of a stored list is guarded by a non-emptiness test)'
+        if min(lens) >= 1:
+            run.ok(what, f.loc(st), st)
+            continue
+        if sites is None:
+            sites = _last_index_sites(p)
+            if not sites:
+                raise AnchorError('no `[-1]` on a stored value found in the parameter getters')
+        bare = [(g, x) for g, x, guarded in sites if not guarded]
+        # the construct names the store and the values of the function's flag parameters on the way to it, so that the same
+        # store text under another flag setting is a finding of its own
+        flags = {}
+        cur = st
+        while id(cur) in par:
+            up = par[id(cur)]
+            if isinstance(up, ast.If):
+                truth = True if any(cur is b for b in up.body) else False if any(cur is b for b in up.orelse) else None
+                if truth is not None:
+                    for nm in f.params():
+                        val = implied(up.test, truth, lambda e, nm=nm: _is_name(e, nm))
+                        if val is not None and any(_is_name(x, nm) for x in walk_self(up.test)):
+                            flags.setdefault(nm, val)
+            cur = up
+        cons = short(st, 200) + ''.join('  [%s=%s]' % kv for kv in sorted(flags.items()))
+        run.check(not bare, what, f, cons, where=f.loc(st),
+                  witness=['the stored list may be empty (minimum length 0)'] + ['%s %s: unguarded %s' % (g.loc(x), g.qual, short(x)) for g, x in bare],
+                  runtime_witness="auto_parse_qs_csv=True, keep_blank_qs_values=False: '?a=,' is stored as {'a': []} and get_param('a') raises "
+                                  'IndexError (a 500)')
+
+
 def check(run):
     run.assume('the pure-Python parse_query_string/decode are decided; the Cython twin (falcon/cyutil/uri.pyx) replaces them when importable and is not analysed')
     run.assume('E5 assumptions: str/bytes methods and in-range slices are total; UTF-8 encoding of text without lone surrogates is total; '
@@ -2583,7 +3017,7 @@ def check(run):
     run.assume('media handlers used by get_param_as_json report failures as HTTPBadRequest subclasses (C12)')
     run.rule('R1', r1_split_then_decode, 'parse_query_string: split on & and first =, CSV split before decode, blank handling', floor=11)
     run.rule('R2', r2_total, 'parse_query_string / decode / _join_tokens_* are total on str input (4 functions examined)', floor=1)
-    run.rule('R3', r3_getters, 'typed getters conform to the documented template', floor=90)
+    run.rule('R3', r3_getters, 'typed getters conform to the documented template', floor=100)
     run.rule('R4', r4_to_query_str, 'to_query_str encodes keys and values', floor=8)
     run.rule('R5', r5_options, 'both request classes pass keep_blank/csv options to parse_query_string', floor=6)
     # percent-decoding of names and values rests on the escape table and the
@@ -2611,3 +3045,4 @@ def check(run):
     run.rule('R14', _c12._safe(_c12.r2_error_mapping), 'the JSON handler maps every loads() failure to the malformed-media error the json getter converts (shared with C12 R2)', floor=9)
     run.rule('R15', r15_undecoded_shortcut, "parse_query_string stores a name / value undecoded only behind a guard that excludes both '%' and '+'", floor=1)
     run.rule('R16', r16_presence_by_key, 'has_param decides presence by key membership in the parsed mapping, never by the truthiness of the stored value (evaluated on presence x stored-value cells)', floor=6)
+    run.rule('R17', r17_stored_list_nonempty, 'a list parse_query_string stores is never empty, or every [-1] a getter takes of a stored list is guarded (minimum-length domain over the parser paths)', floor=4)
